@@ -124,6 +124,7 @@ type Resp struct {
 	Ops    []Op   `json:"ops"`
 	Decls  []DeclDump `json:"decls,omitempty"`
 	Scans  [][]Tok    `json:"scans,omitempty"`
+	Optab  map[string][]string `json:"optab,omitempty"` // operator -> overloading declarations in table order
 }
 
 type walker struct {
@@ -415,6 +416,14 @@ func once(r Req) (resp Resp) {
 		return w.calls[i].Col < w.calls[j].Col
 	})
 	resp.Calls, resp.Ops = w.calls, w.ops
+	if len(mod.Operators) > 0 {
+		resp.Optab = map[string][]string{}
+		for op, decls := range mod.Operators {
+			for _, d := range decls {
+				resp.Optab[op.String()] = append(resp.Optab[op.String()], d.Name())
+			}
+		}
+	}
 	if r.Decls {
 		dw := &declWalker{}
 		ast.VisitModuleRec(mod, dw)
